@@ -16,7 +16,8 @@ Inductive meta_obs :=
 | MSel (idx : N) (pbits : Z) (n : nat) (counts : list N)
 | MBench (idx : N) (prob : nat) (nc : N) (f0 fbest : Z)
 | MInproc (idx : N) (nc budget peak started : N) (ok : bool)
-| MTerm (idx : N) (crits : list crit) (res : option compiled).
+| MTerm (idx : N) (crits : list crit) (res : option compiled)
+| MInprocFail (idx : N) (nc started still_executing : N) (is_err : bool).
 
 (** ** meta_adapt: what [mutate] can return for SOME factors in [floor, ceil] (necessary
     condition: multiplication and [min] are monotone, the input is non-negative) *)
@@ -84,6 +85,7 @@ Definition bench_ok (prob : nat) (f0 fb : f64) : bool :=
   | 0%nat => fle fb (fmul f0 (of_bits 0x3FA999999999999A))   (* 0.05 *)
   | 1%nat => fle fb (fmul f0 (of_bits 0x3FB999999999999A))   (* 0.1 *)
   | 2%nat => fle fb (fmul f0 (of_bits 0x3F847AE147AE147B))   (* 0.01 *)
+  | 7%nat => fle fb (fmul f0 (of_bits 0x3FA999999999999A))   (* tiny length scale (1e-12): 0.05 *)
   | _ => feq fb fzero
   end.
 
@@ -99,6 +101,10 @@ Definition judge_meta (o : meta_obs) : string :=
   | MSel idx pbits n counts =>
       "META idx=" ++ N2s idx ++ " acc=" ++ (if sel_acc pbits n counts then "ok" else "rej/selection") ++
       " C14=1 C15=1 C17=" ++ b2s (sel_mon pbits n counts) ++ " END"
+  | MInprocFail idx nc started still is_err =>
+      (* C06, threaded in-process evaluation: the failing run returns an error, and only once the
+         evaluations in flight have ended *)
+      "META idx=" ++ N2s idx ++ " acc=ok C14=1 C15=1 C17=1 C06=" ++ b2s (is_err && N.eqb still 0) ++ " END"
   | MTerm idx crits res =>
       let oeq {A} (e : A -> A -> bool) (a b : option A) := match a, b with Some x, Some y => e x y | None, None => true | _, _ => false end in
       let same := match Termination.compile crits, res with
